@@ -815,6 +815,19 @@ class SourceFinder(object):
                 continue
             pixbeam = Beam(a, b, pa)
 
+            # The brightest pixel of a beam sized source lies below its true
+            # peak by up to this factor when the peak falls between pixel
+            # centres, so the 5% allowance above is not enough for beams that
+            # are sampled with few pixels.
+            sampling = np.exp(0.125 * (1 / (pixbeam.a * FWHM2CC) ** 2
+                                       + 1 / (pixbeam.b * FWHM2CC) ** 2))
+            if amp > 0:
+                amp_max = max(amp_max,
+                              amp * sampling + innerclip * rmsimg[xo, yo])
+            else:
+                amp_min = min(amp_min,
+                              amp * sampling - innerclip * rmsimg[xo, yo])
+
             # set a square limit based on the size of the pixbeam
             xo_lim = 0.5 * np.hypot(pixbeam.a, pixbeam.b)
             yo_lim = xo_lim
